@@ -36,7 +36,7 @@ COMPONENTS = {
     "stub": ["CAN backend (SimBus)", "can.Notifier", "time inside canopen.profiles.p402 / queue+time in sdo.client / threading.Condition in pdo.base (virtual clock)",
              "drive (RefDrive402 reference model incl. its SDO server)"],
 }
-PROBES = ["transport-sdo", "transport-pdo-event", "transport-pdo-periodic", "auto-transition-during-assignment", "fault-reset", "fault-reset-without-edge",
+PROBES = ["set-up-again-on-the-same-node-object", "transport-sdo", "transport-pdo-event", "transport-pdo-periodic", "auto-transition-during-assignment", "fault-reset", "fault-reset-without-edge",
           "refused-target", "detour", "mode-supported", "mode-unsupported", "decode-unknown"]
 # probes that mark an injected disturbance; the runner also counts them as fired faults in the evidence
 FAULT_PROBES = {'auto-transition-during-assignment': 'drive-changes-state-on-its-own',
@@ -315,5 +315,19 @@ def scenario(ctx):
                 ctx.run_for(w.drive.auto_delay + 12 * MS if ctx.choice(2, "waitrestart") else 1 * MS)
                 if w.drive.transport == "pdo-periodic":
                     ctx.run_for(w.drive.period)
+                if ctx.choice(2, "setup-again") == 1:
+                    # the application sets the 402 state machine up again on the SAME node object, as it does after a power cycle
+                    _, exc = call(w.node.setup_402_state_machine)
+                    if exc is not None:
+                        ctx.violation("C19/setup-raised/%s@%s" % (type(exc).__name__, site(exc)), "second setup_402_state_machine() raised %r" % (exc,))
+                    ctx.run_for(w.drive.auto_delay + 12 * MS)
+                    if w.drive.transport == "pdo-event":
+                        w.drive.send_tpdo()
+                        if w.drive.map_mode == 2:
+                            w.drive.send_tpdo2()
+                    elif w.drive.transport == "pdo-periodic":
+                        ctx.run_for(w.drive.period + 1 * MS)
+                    ctx.run_for(1 * MS)
+                    ctx.probe("set-up-again-on-the-same-node-object")
             tgt = STATES[ctx.choice(8, "target")] if ctx.choice(4, "anytarget") == 0 else COMMANDABLE[ctx.choice(5, "ctarget")]
             _assign(ctx, w, tgt, timing)
